@@ -120,6 +120,7 @@ def bootstrap_dispatch(ov, name):
         first_entry.__closure__,
     )
     dispatch.__signature__ = LazySignature(ov)
+    dispatch.__bootstrap_code__ = dispatch.__code__
     dispatch.__ovld__ = ov
     dispatch.register = ov.register
     dispatch.resolve = ov.resolve
@@ -497,6 +498,20 @@ class Ovld:
         This will also lock this ovld's parent mixins to prevent their
         modification.
         """
+        try:
+            self._compile()
+        except BaseException:
+            # Do not leave a partially filled map in service: the next call
+            # goes through the bootstrap entry and compiles again.
+            self._compiled = False
+            dispatch = getattr(self, "dispatch", None)
+            if dispatch is not None:
+                dispatch.__code__ = dispatch.__bootstrap_code__
+                dispatch.__defaults__ = None
+                dispatch.__kwdefaults__ = None
+            raise
+
+    def _compile(self):
         self._lock_parents()
 
         if self.name is None:
